@@ -3,7 +3,7 @@ What is logic is proved in Coq (coq/props/C07.v: storage of both ring buffers ne
 any history; the capacity trace of the modelled dasp_graph::process — the C09 stack machine with every
 stack/inputs/bit-set operation accounted on (len, cap) vectors — reaches a steady state after one call).
 Allocator behaviour itself cannot be exhibited by a Coq model; it is OBSERVED: a counting GlobalAlloc
-around the allocation-free API surface (88 scenarios, each constructed, warmed up once, then run K more
+around the allocation-free API surface (90 scenarios, each constructed, warmed up once, then run K more
 times, under each of 5 input VALUE FAMILIES: plain, wide dynamic range, finite special values, non-finite,
 ramps; a third of the scenarios are aimed at one data-dependent branch each and report how often it was taken).  The capacity model of the graph processor is additionally TIED to the crate:
 its executable definitions (Alloc/CapsRun.v) are evaluated by coqc on build-and-process scripts and the
@@ -16,7 +16,7 @@ PROP = "C07"
 META = dict(
     category="other",
     technique="Coq size/capacity theorems (ring-buffer storage constant, capacity trace of the modelled graph processor) + coqc-evaluated capacity model vs Processor::verif_capacities() + counting-allocator observation of the API surface",
-    text="Coq proves the logical half (23 theorems): every history of Bounded/Fixed operations leaves the backing storage length unchanged (corollary of the C06 refinement); the bus backlog length equals the maximum lag over live outputs and, under lock-step pulling with drops/re-attachments between rounds, is empty at every round boundary and never exceeds one frame (corollaries of the C13 model); the push/pop/clear scripts that one Processor::process call applies to its DFS stack and inputs vectors are a function of (graph, output node) only and faithful to the C09 traversal model, so after ONE call every further call on the same graph reallocates neither vector (any multigraph, no size bound), with high-water marks 1+|E| (tight) and max in-degree, and with_capacity covering them never reallocates; the same on the capacity trace of the modelled process itself (the C09 traversal with the DFS stack, the inputs list and the FixedBitSet block vectors as (len, cap) pairs): a second call from the same node on any graph of the same shape changes no capacity, a call from any node of any graph whose needs are within what is reserved changes none either, while the reading 'from any node of a graph of that size' is refuted by a witness (a first call from a shallow node, then one from a deep node grows the stack) that the check reproduces on the crate through Processor::verif_capacities(). The capacity model is tied to the crate by running it inside coqc on random build-and-process scripts (Graph and StableGraph, removals, growth between calls, one processor per script) and comparing, after every call, both capacities and the number of allocations+reallocations and of frees of that call. That an operation performs no allocation is a runtime fact no Coq model can exhibit; it is observed with a counting GlobalAlloc over 88 scenarios, each run under 5 input value families (plain, wide dynamic range, finite special values, NaN/inf, ramps) and a third of them designed to enter one rarely taken data-dependent branch each (RMS clamp, envelope attack/release, converter multi-frame advance and exhaustion, sinc priming, clipping on both sides, ring full/empty/wrap, windower edge schedules, ...; which source regions the runs enter is measured with llvm coverage and recorded in the evidence), covering sample/frame/slice/ring-buffer/peak/RMS/envelope/interpolation/window/signal sources and adaptors/fork/buffered/converter/windower/graph processing with stock nodes, with the documented exceptions (bus, by_rc creation, boxed conversions) checked for boundedness/balance instead. This is labelled 'other', not proof.",
+    text="Coq proves the logical half (23 theorems): every history of Bounded/Fixed operations leaves the backing storage length unchanged (corollary of the C06 refinement); the bus backlog length equals the maximum lag over live outputs and, under lock-step pulling with drops/re-attachments between rounds, is empty at every round boundary and never exceeds one frame (corollaries of the C13 model); the push/pop/clear scripts that one Processor::process call applies to its DFS stack and inputs vectors are a function of (graph, output node) only and faithful to the C09 traversal model, so after ONE call every further call on the same graph reallocates neither vector (any multigraph, no size bound), with high-water marks 1+|E| (tight) and max in-degree, and with_capacity covering them never reallocates; the same on the capacity trace of the modelled process itself (the C09 traversal with the DFS stack, the inputs list and the FixedBitSet block vectors as (len, cap) pairs): a second call from the same node on any graph of the same shape changes no capacity, a call from any node of any graph whose needs are within what is reserved changes none either, while the reading 'from any node of a graph of that size' is refuted by a witness (a first call from a shallow node, then one from a deep node grows the stack) that the check reproduces on the crate through Processor::verif_capacities(). The capacity model is tied to the crate by running it inside coqc on random build-and-process scripts (Graph and StableGraph, removals, growth between calls, one processor per script) and comparing, after every call, both capacities and the number of allocations+reallocations and of frees of that call. That an operation performs no allocation is a runtime fact no Coq model can exhibit; it is observed with a counting GlobalAlloc over 90 scenarios, each run under 5 input value families (plain, wide dynamic range, finite special values, NaN/inf, ramps) and a third of them designed to enter one rarely taken data-dependent branch each (RMS clamp, envelope attack/release, converter multi-frame advance and exhaustion, sinc priming, clipping on both sides, ring full/empty/wrap, windower edge schedules, ...; which source regions the runs enter is measured with llvm coverage and recorded in the evidence), covering sample/frame/slice/ring-buffer/peak/RMS/envelope/interpolation/window/signal sources and adaptors/fork/buffered/converter/windower/graph processing with stock nodes, with the documented exceptions (bus, by_rc creation, boxed conversions) checked for boundedness/balance instead. This is labelled 'other', not proof.",
     note="Trusted: Coq kernel for the capacity theorems; for the allocator half the harness's scenario list is the coverage: an allocation reachable only through an API call or input class the scenarios do not exercise is missed (docs/coverage/C07_regions.json lists the source regions of the anchored files that no scenario enters). petgraph/std Vec growth is modelled as (len, cap) with std's amortised rule cap' = max(4, 2*cap, needed), validated by the capacity correspondence only.",
     design="6/C07")
 
@@ -35,7 +35,7 @@ ZERO = ["sample_conv", "sample_amp", "frame_ops2", "frame_ops32", "slice_views",
         "rms_clamp", "rms_clamp_adaptors", "env_attack_release", "conv_ratio_steps", "conv_exhaustion", "sinc_priming",
         "clip_both_sides", "bounded_full_wrap", "windower_edges", "graph_node_edge_cases", "osc_shapes",
         "exhaustion_queries", "consume_parts", "fork_rc_schedules", "slice_all_forms", "frame_iters_mono",
-        "sample_all_formats", "custom_int_types", "debug_fmt"]
+        "sample_all_formats", "custom_int_types", "debug_fmt", "size_sweep"]
 
 # value families of the scenario inputs (4th token of a harness line; harness/src/bin/c07.rs, `struct R`)
 FAMILIES = ["plain", "dynrange", "edges", "nonfinite", "ramps"]
@@ -441,6 +441,23 @@ def minimise(binpath, n, k, s, fi):
         return {"minimised": {"error": str(e)}}
 
 
+def report_bad(rep, binpath, badruns, profile):
+    """one violation per scenario: the first failing run (fewest calls, then family, then seed), shrunk to the smallest
+    number of calls that still fails, with the other failing runs of the same scenario listed in the replay file"""
+    for i, (n, runs) in enumerate(badruns.items()):
+        line, o, bad = runs[0]
+        _, k, s, fi = line.split()
+        payload = {"kind": "heap traffic in steady state" + ("" if profile == "dev" else f" ({profile} profile)"),
+                   "scenario": n, "calls": int(k), "seed": int(s), "family": int(fi), "family_name": FAMILIES[int(fi)],
+                   "profile": profile, "harness_line": line, "observed": o, "problem": bad,
+                   "replay": f"echo '{line}' | harness/target/{'debug' if profile == 'dev' else profile}/c07",
+                   "failing_runs_of_this_scenario": len(runs),
+                   "other_failing_runs": [{"harness_line": l, "observed": oo} for l, oo, _ in runs[1:41]]}
+        if i < 8:
+            payload.update(minimise(binpath, n, int(k), s, fi))
+        rep.violation(f"{n}_{k}_{s}_{FAMILIES[int(fi)]}" + ("" if profile == "dev" else "_" + profile), payload)
+
+
 def main(rep, tier, seed):
     rng = F.Rng(seed)
     info = F.standard_proof_phase(rep, PROP)
@@ -469,12 +486,12 @@ def main(rep, tier, seed):
     unknown = [n for n in names if verdict(n, 1, [0, 0, 0, 0, 0, 0, 0, 0, 0]) == f"unknown scenario {n}"]
     if unknown:
         rep.violation("scenarios_unknown", {"kind": "the harness lists scenarios the check has no verdict for", "unknown": unknown}, no_input=True)
-    # every scenario under every value family: the long runs of the thorough tier use 3 seeds per family
+    # every scenario under every value family: the long runs of the thorough tier use 3 seeds (plain) / 2 seeds (others)
     lines = [f"{n} {k} {s} {fi}" for n in names for k in ks for fi in range(len(FAMILIES))
-             for s in (seeds if k <= 1000 else seeds[:3])]
+             for s in (seeds if k <= 1000 else seeds[:3] if fi == 0 else seeds[:2])]
     rc, outl, err = F.run_bin_parallel(binpath, lines)
     results = []
-    nviol = 0
+    badruns = {}
     for line, o in zip(lines, outl):
         n, k, s, fi = line.split()
         try:
@@ -484,13 +501,8 @@ def main(rep, tier, seed):
         bad = verdict(n, int(k), v)
         results.append((line, o, bad))
         if bad:
-            nviol += 1
-            payload = {"kind": "heap traffic in steady state", "scenario": n, "calls": int(k), "seed": int(s),
-                       "family": int(fi), "family_name": FAMILIES[int(fi)], "harness_line": line,
-                       "observed": o, "problem": bad, "replay": f"echo '{line}' | harness/target/debug/c07"}
-            if nviol <= 6:
-                payload.update(minimise(binpath, n, int(k), s, fi))
-            rep.violation(f"{n}_{k}_{s}_{FAMILIES[int(fi)]}", payload)
+            badruns.setdefault(n, []).append((line, o, bad))
+    report_bad(rep, binpath, badruns, "dev")
     if len(outl) != len(lines):
         rep.violation("harness_run", {"kind": "harness run incomplete", "stderr": err[-2000:]}, no_input=True)
     # the same runs on the optimised build (no debug assertions, no overflow checks): the `cfg!(debug_assertions)`
@@ -505,6 +517,7 @@ def main(rep, tier, seed):
             rc, routl, err = F.run_bin_parallel(relpath, rlines)
             if len(routl) != len(rlines):
                 rep.violation("harness_run_release", {"kind": "harness run incomplete (release profile)", "stderr": err[-2000:]}, no_input=True)
+            rbad = {}
             for line, o in zip(rlines, routl):
                 n, k, s, fi = line.split()
                 try:
@@ -515,13 +528,8 @@ def main(rep, tier, seed):
                 rel["runs"] += 1
                 if bad:
                     rel["bad"] += 1
-                    if rel["bad"] <= 20:
-                        payload = {"kind": "heap traffic in steady state (release profile)", "scenario": n, "calls": int(k), "seed": int(s),
-                                   "family": int(fi), "family_name": FAMILIES[int(fi)], "profile": "release", "harness_line": line,
-                                   "observed": o, "problem": bad, "replay": f"echo '{line}' | harness/target/release/c07"}
-                        if rel["bad"] <= 3:
-                            payload.update(minimise(relpath, n, int(k), s, fi))
-                        rep.violation(f"{n}_{k}_{s}_{FAMILIES[int(fi)]}_release", payload)
+                    rbad.setdefault(n, []).append((line, o, bad))
+            report_bad(rep, relpath, rbad, "release")
     rep.extra["release_profile_runs"] = rel
     return finish(rep, info, results, len(names), tier)
 
